@@ -106,7 +106,7 @@ theorem counters_set {procs : List Process} {cs : List Counter} {i : Nat} {old n
 
 theorem TInv.init : TInv P.init where
   libs := ⟨fun _ hx => (nomatch hx), fun _ hx => (nomatch hx)⟩
-  gstr := fun _ hx => nomatch hx
+  gstr := ⟨fun _ hx => (nomatch hx), fun _ hx => (nomatch hx)⟩
   threads := fun _ hx => nomatch hx
   subsPos := by
     intro c hc
